@@ -8,11 +8,11 @@ rm -rf $wt; git -C /repo worktree prune; git -C /repo worktree add -q --detach $
 res=/verif/seeded/$id; mkdir -p $res
 cp $src/patch.diff $src/demo.cpp $res/ 2>/dev/null; cp $src/notes.txt $res/notes.txt 2>/dev/null
 cd $wt
-g++ -std=c++17 -I$wt/src $res/demo.cpp -o /tmp/sc_${id}_orig 2>/tmp/sc_${id}_orig.err; /tmp/sc_${id}_orig >/dev/null 2>&1; orig_rc=$?
+g++ -std=c++17 -pthread -I$wt/src $res/demo.cpp -o /tmp/sc_${id}_orig 2>/tmp/sc_${id}_orig.err; /tmp/sc_${id}_orig >/dev/null 2>&1; orig_rc=$?
 if ! git apply --check $res/patch.diff 2>/dev/null; then echo "$id: patch does not apply on current HEAD"; applies=0; else applies=1; git apply $res/patch.diff; fi
 mut_rc=-1; suite="not run"
 if [ $applies = 1 ]; then
-  g++ -std=c++17 -I$wt/src $res/demo.cpp -o /tmp/sc_${id}_mut 2>/tmp/sc_${id}_mut.err; /tmp/sc_${id}_mut >/dev/null 2>&1; mut_rc=$?
+  g++ -std=c++17 -pthread -I$wt/src $res/demo.cpp -o /tmp/sc_${id}_mut 2>/tmp/sc_${id}_mut.err; /tmp/sc_${id}_mut >/dev/null 2>&1; mut_rc=$?
   cmake -S $wt -B $wt/_b -G Ninja -DCMAKE_BUILD_TYPE=Debug >/dev/null 2>&1 && cmake --build $wt/_b >/tmp/sc_${id}_build.log 2>&1 && suite=$(ctest --test-dir $wt/_b -j8 --timeout 900 2>&1 | grep -E "tests passed|tests failed" | head -1)
 fi
 python3 - "$id" "$prop" "$applies" "$orig_rc" "$mut_rc" "$suite" <<'PY'
